@@ -29,8 +29,8 @@ func layoutRuns(mask, n int) []memBlock {
 
 func init() {
 	checks["C15"] = eng.Check{
-		Hist: true,
-		Rule: "Bytes memory. (a) creation: every ordered list of <=3 non-empty blocks (begin 0..7, length 1..3, distinct bytes) incl. overlapping, adjacent and unsorted ones: NewBytes fails iff two blocks share an address, otherwise the full read surface (every Load/Missing for a in 0..11, w in 1..3, Blocks) equals the byte map and the given slices are not aliased. (b) histories: for each of the 64 layouts over addresses 0..5 (one block per run) and a layout split into adjacent blocks, every history of <=2 (quick) / <=3 (thorough) constant stores (addr 0..7, width 1..3, constant exactly/narrower/wider than the write, or equal to the bytes already present) on a fresh real Bytes; full surface after each history; digests of constants handed in and expressions returned re-checked. Non-trivial = history with >=2 stores or creation from >=2 blocks.",
+		Hist:        true,
+		Rule:        "Bytes memory. (a) creation: every ordered list of <=3 non-empty blocks (begin 0..7, length 1..3, distinct bytes) incl. overlapping, adjacent and unsorted ones: NewBytes fails iff two blocks share an address, otherwise the full read surface (every Load/Missing for a in 0..11, w in 1..3, Blocks) equals the byte map and the given slices are not aliased. (b) histories: for each of the 64 layouts over addresses 0..5 (one block per run) and a layout split into adjacent blocks, every history of <=2 (quick) / <=3 (thorough) constant stores (addr 0..7, width 1..3, constant exactly/narrower/wider than the write, or equal to the bytes already present) on a fresh real Bytes; full surface after each history; digests of constants handed in and expressions returned re-checked. Non-trivial = history with >=2 stores or creation from >=2 blocks.",
 		Assumptions: []string{"initial blocks are non-empty", "only constants are stored (documented precondition of Bytes.Store)", "no address wrap"},
 		Run: func(r *eng.Run) {
 			// (a) creation
@@ -117,8 +117,8 @@ func init() {
 	}
 
 	checks["C16"] = eng.Check{
-		Hist: true,
-		Rule: "Overlay(base, Sparse): base = each of the 64 Bytes layouts over addresses 0..5 and 4 pre-filled (fragmented, symbolic) Sparse memories; every history of <=2 (quick) / <=3 (thorough) stores (addr 0..5, width 1..3 (+4 quick depth<=2), constant/symbolic/narrower values and constants equal to the base layer's content at that place) through the real Overlay; after each history every Load/Missing for a in 0..7, w in 1..4 and Blocks() compared with the layered byte map (upper layer wins, else base), and the base's own full surface compared with its initial model. Non-trivial = history with >=2 stores.",
+		Hist:        true,
+		Rule:        "Overlay(base, Sparse): base = each of the 64 Bytes layouts over addresses 0..5 and 4 pre-filled (fragmented, symbolic) Sparse memories; every history of <=2 (quick) / <=3 (thorough) stores (addr 0..5, width 1..3 (+4 quick depth<=2), constant/symbolic/narrower values and constants equal to the base layer's content at that place) through the real Overlay; after each history every Load/Missing for a in 0..7, w in 1..4 and Blocks() compared with the layered byte map (upper layer wins, else base), and the base's own full surface compared with its initial model. Non-trivial = history with >=2 stores.",
 		Assumptions: []string{"no address wrap", "values judged under 3 valuations"},
 		Run: func(r *eng.Run) {
 			alpha := memAlpha(seq(0, 5), seq(1, 3), []string{"const", "sym", "basecopy"})
